@@ -547,6 +547,12 @@ struct world
         have_dh = true;
     }
 
+    // what an initiator that goes on with the values of an earlier, aborted exchange would send as its DHKey check
+    void remember_stale_ea() { if ( have_dh ) { stale_ea = expected_ea(); stale_ea_valid = true; } }
+
+    u128 stale_ea{};
+    bool stale_ea_valid = false;
+
     u128 expected_ea() const
     {
         const u128 zero{};
@@ -733,6 +739,7 @@ struct world
                 std::copy( in.begin() + 1, in.end(), na.begin() );
                 std::copy( r.pdu.begin() + 1, r.pdu.end(), nb.begin() );
                 compute_lesc_secrets();
+                remember_stale_ea();
                 if ( g_io.asked != asked_before )
                 {
                     nc = true;
@@ -966,6 +973,7 @@ struct world
             bytes pdu = { 0x0d };
             u128 ea = take16( op.bytes );
             if ( op.arg( 0 ) == 0 && have_dh ) ea = expected_ea();
+            else if ( op.arg( 0 ) == 0 && stale_ea_valid ) { ea = stale_ea; res.fault( "stale_dhkey_check_replayed" ); }
             pdu.insert( pdu.end(), ea.begin(), ea.end() );
             input( with_len( pdu, op.arg( 1 ), op.bytes ), "dhkey check" );
             break; }
@@ -1157,7 +1165,7 @@ struct sm_harness : sim::Harness
     std::uint64_t default_runs( const std::string& p, bool thorough ) const override
     {
         if ( p == "C38" ) return thorough ? 200000 : 12000;
-        return thorough ? 600000 : 16000;
+        return thorough ? 2000000 : 100000;
     }
     std::vector< std::string > op_names() const override
     {
@@ -1219,6 +1227,38 @@ struct sm_harness : sim::Harness
             }
         };
 
+        // --- the family "the user still owes an answer": a numeric comparison is left open, the exchange is aborted in one of several ways,
+        // a new one is started, and then the late answer and steps the new exchange has not reached yet arrive in some order
+        if ( cfg.variant != 0 && cfg.yes_no && rng.chance( 12 ) )
+        {
+            p.knobs[ "user_mode" ] = user_deferred;
+            const std::int64_t io = rng.chance( 50 ) ? 1 : 4, authreq = 0x08 | ( rng.chance( 50 ) ? 0x01 : 0 ) | ( rng.chance( 50 ) ? 0x04 : 0 );
+            const sim::Op request( op_request, { io, 0, authreq, 16, static_cast< std::int64_t >( rng.below( 16 ) ), static_cast< std::int64_t >( rng.below( 16 ) ), 0 }, rnd_bytes( rng, 4 ) );
+            const sim::Op pubkey( op_pubkey, { 0, 0, static_cast< std::int64_t >( rng.below( 3 ) ) }, rnd_bytes( rng, 64 ) );
+            p.ops.push_back( request );
+            p.ops.push_back( pubkey );
+            p.ops.push_back( sim::Op( op_poll, {} ) );
+            p.ops.push_back( sim::Op( op_random, { 0, 0 }, rnd_bytes( rng, 16 ) ) );
+            if ( rng.chance( 30 ) ) p.ops.push_back( sim::Op( op_dhkey, { 0, 0 }, rnd_bytes( rng, 16 ) ) );
+            switch ( rng.below( 5 ) )
+            {
+            case 0: p.ops.push_back( sim::Op( op_confirm, { 0, 0, 0 }, rnd_bytes( rng, 32 ) ) ); break;     // out of order
+            case 1: p.ops.push_back( sim::Op( op_failed, { static_cast< std::int64_t >( rng.below( 16 ) ) } ) ); break;
+            case 2: p.ops.push_back( pubkey ); break;
+            case 3: p.ops.push_back( sim::Op( op_disconnect, { static_cast< std::int64_t >( rng.below( 3 ) ) } ) ); break;
+            default: break;     // the new request itself ends the old exchange
+            }
+            p.ops.push_back( request );
+            std::vector< sim::Op > rest{ sim::Op( op_user, { rng.chance( 80 ) ? 1 : 0 } ), sim::Op( op_dhkey, { 0, 0 }, rnd_bytes( rng, 16 ) ) };
+            if ( rng.chance( 40 ) ) rest.push_back( pubkey );
+            if ( rng.chance( 30 ) ) rest.push_back( sim::Op( op_random, { 0, 0 }, rnd_bytes( rng, 16 ) ) );
+            if ( rng.chance( 30 ) ) rest.push_back( sim::Op( op_poll, {} ) );
+            for ( std::size_t k = rest.size(); k > 1; --k ) std::swap( rest[ k - 1 ], rest[ rng.below( k ) ] );
+            for ( const auto& o : rest ) p.ops.push_back( o );
+            p.ops.push_back( sim::Op( op_poll, {} ) );
+            p.ops.push_back( sim::Op( op_enc_req, { 0, 0, 0 } ) );
+        }
+
         for ( unsigned a = 0; a != attempts; ++a )
         {
             // --- one pairing attempt as an honest script
@@ -1264,11 +1304,18 @@ struct sm_harness : sim::Harness
             if ( mutate_pc && rng.chance( mutate_pc ) && script.size() > 1 )
             {
                 const std::size_t i = rng.below( script.size() );
-                switch ( rng.below( 3 ) )
+                switch ( rng.below( 4 ) )
                 {
                 case 0: script.erase( script.begin() + static_cast< long >( i ) ); break;
                 case 1: script.insert( script.begin() + static_cast< long >( i ), script[ i ] ); break;
-                default: if ( i + 1 < script.size() ) std::swap( script[ i ], script[ i + 1 ] ); break;
+                case 2: if ( i + 1 < script.size() ) std::swap( script[ i ], script[ i + 1 ] ); break;
+                default: {
+                    // jump ahead: several steps in a row are left out (the initiator goes on with what it has from an earlier attempt);
+                    // a user who still owes the answer to an earlier question may give it now
+                    const std::size_t from = 1 + rng.below( script.size() - 1 ), to = from + 1 + rng.below( script.size() - from );
+                    script.erase( script.begin() + static_cast< long >( from ), script.begin() + static_cast< long >( std::min( to, script.size() ) ) );
+                    if ( rng.chance( 60 ) ) script.insert( script.begin() + static_cast< long >( std::min< std::size_t >( from, script.size() ) ), sim::Op( op_user, { rng.chance( 75 ) ? 1 : 0 } ) );
+                    break; }
                 }
             }
             for ( const auto& op : script )
